@@ -482,9 +482,24 @@ def r03_5(ctx: Ctx, rep: Report, h: Optional[Func]) -> None:
     wild: Set[str] = set()
     for p in paths:
         if isinstance(p.ret, ast.Constant) and p.ret.value is True:
+            recognised = False
             for test, truth in p.atoms:
                 t = deep_resolve(test, p.env)
+                if isinstance(t, ast.Compare) and len(t.ops) == 1 and isinstance(t.ops[0], ast.In) and truth:
+                    # `x in ("ip",)` is equality with each member; `x in ("ip")` / `x in "ip"` is a SUBSTRING test
+                    rhs = t.comparators[0]
+                    ch = chain(t.left)
+                    if isinstance(rhs, ast.Constant) and isinstance(rhs.value, str):
+                        recognised = True
+                        rep.violation(h.qualname, snippet(test), f"`in {rhs.value!r}` is a substring test: the empty name of every protocol number that has no name is 'in' it, so a top entry with such a number covers everything", where(h, test), inp="permit 200 any any above permit tcp any any")
+                        continue
+                    if isinstance(rhs, (ast.Tuple, ast.List, ast.Set)) and all(isinstance(e, ast.Constant) for e in rhs.elts) and ch and ch[0] == other and norm_field(h.cls, ch[1]) == "_protocol":
+                        recognised = True
+                        for e in rhs.elts:
+                            wild.add(repr(e.value) + ":" + ch[-1])
+                        continue
                 if isinstance(t, ast.Compare) and len(t.ops) == 1 and isinstance(t.ops[0], ast.Eq) and truth:
+                    recognised = True
                     sides = [t.left, t.comparators[0]]
                     const = [s for s in sides if isinstance(s, ast.Constant)]
                     var = [s for s in sides if not isinstance(s, ast.Constant)]
@@ -498,6 +513,8 @@ def r03_5(ctx: Ctx, rep: Report, h: Optional[Func]) -> None:
                             rep.violation(h.qualname, snippet(test), "unrecognised short-cut to True in the protocol cover test", where(h))
             if not p.atoms:
                 rep.violation(h.qualname, "return True", "the protocol cover test is unconditionally true", where(h))
+            elif not recognised:
+                rep.violation(h.qualname, "return True under [" + "; ".join(snippet(t_, 40) + ("" if tr_ else " (false)") for t_, tr_ in p.atoms) + "]", "a positive protocol answer that is neither equality of the numbers nor the test for the wildcard protocol", where(h))
     nr2p = ctx.folder.const("protocol", "NR_TO_PROTOCOL")
     for w in sorted(wild):
         val, attr = w.rsplit(":", 1)
@@ -821,6 +838,7 @@ def run(ctx: Ctx, rep: Report, tier: str) -> None:
         flags_rule(ctx, rep, opt)
     r03_5(ctx, rep, helpers.get("_protocol"))
     r03_6(ctx, rep, helpers)
+    address_answers(ctx, rep, helpers)
     from .c01 import field_isolation
 
     field_isolation(ctx, rep, "R03.8")
@@ -828,6 +846,18 @@ def run(ctx: Ctx, rep: Report, tier: str) -> None:
     from .c05 import memo_rules
 
     memo_rules(ctx, rep, rid="R03.9")
+    # R03.14 ... and nobody changes in place the list a memoised ipnets() hands out (C05 R05.9)
+    from .c05 import r05_9
+
+    sub59 = Report("C03")
+    r05_9(ctx, sub59)
+    rep.absorb(sub59, "R03.14")
+    # R03.16 the network lists compared are complete: the expansion of a group leaves no member out (C05 R05.12)
+    from .c05 import expansion_covers_members
+
+    sub512 = Report("C03")
+    expansion_covers_members(ctx, sub512)
+    rep.absorb(sub512, "R03.16")
     members_only_for_groups(ctx, rep)
     # R03.12 premise: the flag/log split of the option text (the flag cover test reads .flags)
     from .c01 import option_partition
@@ -849,6 +879,36 @@ def run(ctx: Ctx, rep: Report, tier: str) -> None:
     sub8 = Report("C03")
     c08.run(ctx, sub8, tier)
     rep.absorb(sub8, "R03.13")
+
+
+def address_answers(ctx: Ctx, rep: Report, helpers: Dict[str, Optional[Func]], rid: str = "R03.15") -> None:
+    """Every answer of an address cover helper that can be positive is the answer of the network containment test
+    (`subnet_of(tops=..., bottoms=...)`): equality of two address objects compares their text or group name, not the
+    networks behind them, and is no ground for "covered"."""
+    from .common import single_env
+
+    rep.rule(rid)
+    for fld in ("_srcaddr", "_dstaddr"):
+        h = helpers.get(fld)
+        if h is None:
+            continue
+        env = single_env(h.node)
+        cfg = ctx.cfg(h)
+        for r in return_nodes(cfg):
+            if r.ast.value is None or falsy_const_return(r):
+                continue
+            rep.instance()
+            v = r.ast.value
+            for _ in range(4):
+                if isinstance(v, ast.Name) and v.id in env:
+                    v = env[v.id]
+                elif isinstance(v, ast.Call) and isinstance(v.func, ast.Name) and v.func.id == "bool" and len(v.args) == 1:
+                    v = v.args[0]
+            if isinstance(v, ast.Call) and src(v.func).endswith("subnet_of"):
+                rep.ok(f"{h.qualname}: {snippet(r.ast, 50)}", "the answer of the network containment test", where=where(h, r.ast))
+            else:
+                rep.violation(h.qualname, snippet(r.ast), "a positive address answer that is not the answer of the network containment test (equal text or equal group name does not mean equal networks)", where(h, r.ast), inp="two object-groups with the same name and different members")
+    rep.floor(2, "answers of the address cover helpers")
 
 
 def flags_rule(ctx: Ctx, rep: Report, h: Func) -> None:
